@@ -1056,7 +1056,7 @@ class Interp:
         if all(isinstance(x, (str, TStr, FinStr)) for x in out):
             return tstr.concat(out)
         if any(isinstance(x, UTerm) for x in out) and all(isinstance(x, (str, UTerm)) for x in out):
-            return UTerm("concat", out, "str")          # literal pieces and abstract texts, in order
+            return UTerm("concat", [x for x in out if not (isinstance(x, str) and x == "")], "str")   # literal pieces and abstract texts, in order
         return OpaqueStr("format:" + fmt)
 
     def format_value(self, v, spec, conv):
@@ -1964,6 +1964,11 @@ class Interp:
                 parts.append(self.format_value(self.eval(v.value, fr), spec, conv))
         if all(isinstance(p, str) for p in parts):
             return "".join(parts)
+        # same result values as str.format: structured strings / abstract concatenations where the pieces allow it
+        if all(isinstance(x, (str, TStr, FinStr)) for x in parts):
+            return tstr.concat(parts)
+        if any(isinstance(x, UTerm) for x in parts) and all(isinstance(x, (str, UTerm)) for x in parts):
+            return UTerm("concat", [x for x in parts if not (isinstance(x, str) and x == "")], "str")
         return OpaqueStr("fstring")
 
     def e_Lambda(self, e, fr):
